@@ -7,11 +7,17 @@
 EXTENDS Gossip, Sequences, Json
 CONSTANTS Depth, Atomic
 VARIABLE hist
-NoMsg == [type |-> "none", from |-> "", to |-> "", digs |-> Empty, nodes |-> Empty]
+\* compact JSON: a record [g, v, s] is printed as the array [g, v, s], a digest as [g, v]
+CRecs(f) == [k \in DOMAIN f |-> <<f[k].g, f[k].v, f[k].s>>]
+CDigs(f) == [k \in DOMAIN f |-> <<f[k].g, f[k].v>>]
+CView(w) == [n \in Node |-> CRecs(w[n])]
+NoMsg == [type |-> "none", digs |-> Empty, nodes |-> Empty]
 \* message created by this step (at most one)
-NewMsg == IF net' \ net = {} THEN NoMsg ELSE CHOOSE m \in net' \ net : TRUE
-R(a, i, j, s) == [a |-> a, i |-> i, j |-> j, s |-> s, m |-> NewMsg, st |-> view',
-                  conv |-> AllPairs', done |-> (exchanged' # exchanged)]
+NewMsg == IF net' \ net = {} THEN NoMsg
+          ELSE LET m == CHOOSE m \in net' \ net : TRUE
+               IN [type |-> m.type, digs |-> CDigs(m.digs), nodes |-> CRecs(m.nodes)]
+R(a, i, j, s) == [a |-> a, i |-> i, j |-> j, s |-> s, m |-> NewMsg, st |-> CView(view'),
+                  conv |-> AllPairs']
 Log(a, i, j, s) == hist' = Append(hist, R(a, i, j, s))
 Changes == \E n \in Node :
              \/ Tick(n) /\ Log("tick", n, "", 0)
@@ -27,8 +33,8 @@ GNext == /\ Len(hist) < Depth
                   \/ HandleAck2(m) /\ Log("ack2", Initiator(m), Peer(m), 0)
                   \/ Drop(m) /\ Log("drop", Initiator(m), Peer(m), 0)
 GInit == /\ Init
-         /\ hist = <<[a |-> "init", i |-> "", j |-> "", s |-> 0, m |-> NoMsg, st |-> view,
-                      conv |-> FALSE, done |-> FALSE]>>
+         /\ hist = <<[a |-> "init", i |-> "", j |-> "", s |-> 0, m |-> NoMsg, st |-> CView(view),
+                      conv |-> FALSE]>>
 GSpec == GInit /\ [][GNext]_<<vars, hist>>
 Emit == Len(hist) # Depth \/ PrintT(<<"HIST", ToJson(hist)>>)
 ====
